@@ -528,8 +528,29 @@ def rule_P11(ctx) -> None:
                     '// says "hi"   or   // matches \\x41')
 
 
+def rule_P12(ctx) -> None:
+    """the `optional` a field is generated with is the schema's proto3_optional flag and nothing else"""
+    models = ctx.repo.mod(M_MODELS)
+    fn = models.func("FieldCompiler.optional")
+    ctx.analysed("FieldCompiler.optional")
+    rets = [n.value for n in ast.walk(fn) if isinstance(n, ast.Return) and n.value is not None]
+    if len(rets) == 1 and ast.unparse(rets[0]) == "self.proto_obj.proto3_optional":
+        ctx.proved("P12", "FieldCompiler.optional:schema-flag", models.loc(fn))
+        return
+    extra = []
+    for r in rets:
+        if isinstance(r, ast.BoolOp) and isinstance(r.op, ast.And) and any(ast.unparse(v) == "self.proto_obj.proto3_optional" for v in r.values):
+            extra += [ast.unparse(v) for v in r.values if ast.unparse(v) != "self.proto_obj.proto3_optional"]
+    if extra:
+        ctx.refuted("P12", "FieldCompiler.optional:schema-flag", ";".join(extra), models.loc(fn),
+                    f"a proto3 `optional` field is generated as optional only when additionally {extra}: for the other fields the metadata says singular although the schema says optional "
+                    "(presence of the default value is then not encoded)", "optional google.protobuf.Int32Value w = 1;")
+    else:
+        ctx.inconclusive("P12", "FieldCompiler.optional:schema-flag", f"return expression not recognised: {[ast.unparse(r) for r in rets]}", models.loc(fn))
+
+
 def run(ctx) -> None:
-    for name, fn in (("P1", template.rule_P1), ("P2", rule_P2), ("P3", rule_P3), ("P4", rule_P4), ("P5", rule_P5), ("P6", rule_P6), ("P7", rule_P7), ("P8", rule_P8), ("Y2iii", template.rule_Y2iii), ("P9", rule_P9), ("P10", rule_P10), ("P11", rule_P11)):
+    for name, fn in (("P1", template.rule_P1), ("P2", rule_P2), ("P3", rule_P3), ("P4", rule_P4), ("P5", rule_P5), ("P6", rule_P6), ("P7", rule_P7), ("P8", rule_P8), ("Y2iii", template.rule_Y2iii), ("P9", rule_P9), ("P10", rule_P10), ("P11", rule_P11), ("P12", rule_P12)):
         ctx.rules_run.append(name)
         fn(ctx)
     from . import phases
